@@ -462,4 +462,256 @@ theorem overlay_first_self (root : P) (mask : Nat) (l1 : List Entry) (e : Entry)
   unfold stepGet; rw [h1]; simp only
   rw [if_pos trivial]; exact hn
 
+/-! ### a failing iteration -/
+
+theorem parent_view (fs fs1 : FS) (p : P) (hne : p ≠ []) (m : Nat) (h1 : mkdirAll fs p.dropLast m = some fs1) :
+    fs1.view = ⟨stepGet fs.view p none m, fs.inodes⟩ := by
+  apply Tree.eq_of
+  · intro q
+    show fs1.get q = stepGet fs.view p none m q
+    rw [parent_exact fs fs1 p hne m h1 q]; rfl
+  · exact mkdirFrom_inodes _ _ _ _ _ _ h1
+
+theorem overlayStep_short (root : P) (mask : Nat) (t : Tree) (e : Entry) :
+    overlayStep root mask t { e with short := false } = overlayStep root mask t e := rfl
+
+/-- **what a failing iteration leaves**: nothing; or the missing parent directories of the entry (the primitive call
+    on the entry's own path failed after `MkdirAll`); or — regular file whose payload could not be copied in full —
+    exactly what the successful iteration leaves, with the bytes that could be copied as content -/
+theorem tarOne_failed_effect (fs : FS) (root : P) (hr : GoodPath root) (hroot : root ≠ []) (mask : Nat) (e : Entry)
+    (r : FS × Bool) (h : tarOne fs root mask e = r) (hf : r.2 = false) :
+    r.1 = fs ∨
+    ((e.kind = .reg ∨ e.kind = .symlink ∨ e.kind = .link) ∧
+      r.1.view = ⟨stepGet fs.view (cleanJoin root e.name) none (0o755 &&& mask), fs.inodes⟩) ∨
+    (e.kind = .reg ∧ e.short = true ∧ r.1.view = overlayStep root mask fs.view e) := by
+  unfold tarOne at h
+  split at h
+  · subst h; exact Or.inl rfl
+  rename_i hcor
+  simp only [] at h
+  split at h
+  · subst h; exact Or.inl rfl
+  rename_i hchk
+  have hp : root <+: cleanJoin root e.name :=
+    lexOK_prefix root _ hr (cleanJoin_good root e.name hr) _ (by simpa using hchk)
+  have hne := prefix_ne_nil root _ hroot hp
+  split at h
+  · subst h; exact Or.inl rfl
+  rename_i hguard
+  split at h
+  · rename_i hk
+    split at h
+    · subst h; exact Or.inl rfl
+    rename_i fs1 h1
+    split at h
+    · subst h; exact Or.inr (Or.inl ⟨Or.inl hk, parent_view fs fs1 _ hne _ h1⟩)
+    rename_i fs2 h2
+    subst h
+    have hs : e.short = true := by simpa using hf
+    refine Or.inr (Or.inr ⟨hk, hs, ?_⟩)
+    have hl : lexOK root (cleanJoin root e.name) false = true := by
+      have hb : (e.kind == Kind.dir) = false := by rw [hk]; rfl
+      rw [hb] at hchk; simpa using hchk
+    have hg : ensureNoSymlinks fs root (cleanJoin root e.name) = true := by simpa using hguard
+    have hb : (Kind.reg == Kind.dir) = false := rfl
+    have h' : tarOne fs root mask { e with short := false } = (fs2, true) := by
+      simp [tarOne, hk, hb, hl, hg, h1, h2]
+    have := tarOne_overlay fs root hr hroot mask { e with short := false } _ h' rfl
+    rw [overlayStep_short] at this
+    exact this
+  · rename_i hk
+    split at h
+    · subst h; exact Or.inl rfl
+    rename_i fs1 h1
+    have hmid : (e.kind = .reg ∨ e.kind = .symlink ∨ e.kind = .link) ∧
+        fs1.view = ⟨stepGet fs.view (cleanJoin root e.name) none (0o755 &&& mask), fs.inodes⟩ :=
+      ⟨Or.inr (Or.inr hk), parent_view fs fs1 _ hne _ h1⟩
+    split at h
+    · subst h; exact Or.inr (Or.inl hmid)
+    split at h
+    · subst h; exact Or.inr (Or.inl hmid)
+    split at h
+    · subst h; exact Or.inr (Or.inl hmid)
+    · subst h; cases hf
+  · rename_i hk
+    split at h
+    · subst h; exact Or.inl rfl
+    rename_i fs1 h1
+    split at h
+    · subst h; exact Or.inr (Or.inl ⟨Or.inr (Or.inl hk), parent_view fs fs1 _ hne _ h1⟩)
+    · subst h; cases hf
+  · split at h
+    · subst h; exact Or.inl rfl
+    · subst h; cases hf
+  · subst h; cases hf
+
+/-! ### an entry that names the destination itself (`./`) -/
+
+theorem mkdirFrom_id (p : P) (mode : Nat) (fuel i : Nat) (fs : FS)
+    (hd : ∀ j, i ≤ j → j ≤ p.length → ∃ m, fs.get (p.take j) = some (.dir m)) :
+    mkdirFrom p mode fuel i fs = some fs := by
+  induction fuel generalizing i with
+  | zero => rfl
+  | succ f ih =>
+    simp only [mkdirFrom]
+    split
+    · rfl
+    · obtain ⟨m, hm⟩ := hd i (Nat.le_refl _) (by omega)
+      rw [hm]
+      exact ih (i + 1) (fun j h1 h2 => hd j (by omega) h2)
+
+/-- `MkdirAll` of an existing directory in a well-formed tree changes nothing -/
+theorem mkdirAll_id (fs : FS) (hw : WF fs) (p : P) (mode m : Nat) (hp : fs.get p = some (.dir m)) :
+    mkdirAll fs p mode = some fs := by
+  apply mkdirFrom_id
+  intro j h1 h2
+  by_cases hj : j = p.length
+  · rw [hj, List.take_length]; exact ⟨m, hp⟩
+  · exact wf_prefix_dir fs hw p _ hp j h1 (by omega)
+
+theorem lexOK_self (root : P) : lexOK root root true = true := by
+  unfold lexOK; simp
+
+/-- a directory entry whose name cleans to the destination (`./`, `.`, the empty name, `a/..`) on an existing
+    destination directory: no error, nothing changes (both loops) -/
+theorem root_entry_noop (fs : FS) (hw : WF fs) (root : P) (mask : Nat) (e : Entry) (hk : e.kind = .dir)
+    (hp : cleanJoin root e.name = root) (m : Nat) (hd : fs.get root = some (.dir m)) :
+    tarOne fs root mask e = (fs, true) ∧ zipOne fs root mask e = (fs, true) := by
+  have hb : (Kind.dir == Kind.dir) = true := rfl
+  have hg : ensureNoSymlinks fs root root = true := by
+    unfold ensureNoSymlinks; rw [if_pos rfl, hd]
+  have hm := mkdirAll_id fs hw root (perm e.mode &&& mask) m hd
+  constructor
+  · simp [tarOne, hk, hp, hb, lexOK_self, hg, hm]
+  · simp [zipOne, hk, hp, hb, lexOK_self, hg, hm]
+
+/-! ### inode contents: who can change an existing file -/
+
+theorem setData_self (a : Array Inode) (ino : Nat) (d : List Nat) (nd : Inode) (h : a[ino]? = some nd) :
+    (setData a ino d)[ino]? = some { nd with data := d } := by
+  have hlt : ino < a.size := by
+    rcases Nat.lt_or_ge ino a.size with h' | h'
+    · exact h'
+    · rw [Array.getElem?_eq_none h'] at h; cases h
+  unfold setData; rw [h]
+  simp only
+  rw [Array.getElem?_setIfInBounds_self, if_pos hlt]
+
+theorem lt_of_getElem? {a : Array Inode} {i : Nat} {nd : Inode} (h : a[i]? = some nd) : i < a.size := by
+  rcases Nat.lt_or_ge i a.size with h' | h'
+  · exact h'
+  · rw [Array.getElem?_eq_none h'] at h; cases h
+
+/-- one step of the specification touches an existing inode only by a regular-file entry whose path holds it: the
+    content becomes the entry's payload, the mode stays -/
+theorem overlayStep_inode (root : P) (mask : Nat) (t : Tree) (e : Entry) (i : Nat) (nd : Inode)
+    (hi : t.inodes[i]? = some nd) :
+    (overlayStep root mask t e).inodes[i]? = some nd ∨
+    (e.kind = .reg ∧ t.get (cleanJoin root e.name) = some (.file i) ∧
+      (overlayStep root mask t e).inodes[i]? = some { nd with data := e.data }) := by
+  have hlt := lt_of_getElem? hi
+  unfold overlayStep
+  split
+  · by_cases hk : e.kind = .reg
+    · simp only [if_pos hk]
+      split
+      · rename_i ino hg
+        by_cases hio : i = ino
+        · subst hio
+          exact Or.inr ⟨hk, hg, setData_self _ _ _ _ hi⟩
+        · left; rw [setData_other _ _ _ _ hio]; exact hi
+      · left
+        rw [Array.getElem?_push, if_neg (by omega)]; exact hi
+    · simp only [if_neg hk]; exact Or.inl hi
+  · exact Or.inl hi
+
+theorem tarOne_inode_step (fs : FS) (root : P) (hr : GoodPath root) (hroot : root ≠ []) (mask : Nat) (e : Entry)
+    (i : Nat) (nd : Inode) (hi : fs.inodes[i]? = some nd) :
+    (tarOne fs root mask e).1.inodes[i]? = some nd ∨
+    (e.kind = .reg ∧ fs.get (cleanJoin root e.name) = some (.file i) ∧
+      (tarOne fs root mask e).1.inodes[i]? = some { nd with data := e.data }) := by
+  have hov := overlayStep_inode root mask fs.view e i nd hi
+  cases hb : (tarOne fs root mask e).2 with
+  | true =>
+    have := tarOne_overlay fs root hr hroot mask e _ rfl hb
+    have hin : (tarOne fs root mask e).1.inodes = (overlayStep root mask fs.view e).inodes := congrArg Tree.inodes this
+    rw [hin]; exact hov
+  | false =>
+    rcases tarOne_failed_effect fs root hr hroot mask e _ rfl hb with h | ⟨_, h⟩ | ⟨_, _, h⟩
+    · rw [h]; exact Or.inl hi
+    · have hin : (tarOne fs root mask e).1.inodes = fs.inodes := congrArg Tree.inodes h
+      rw [hin]; exact Or.inl hi
+    · have hin : (tarOne fs root mask e).1.inodes = (overlayStep root mask fs.view e).inodes := congrArg Tree.inodes h
+      rw [hin]; exact hov
+
+/-- **history of an existing inode over a whole run** (failing or not): its mode never changes, its content is the
+    original one or the payload of a regular-file entry of the archive -/
+theorem extractWith_inode_history (one : FS → Entry → FS × Bool) (es : List Entry)
+    (hstep : ∀ e ∈ es, ∀ (fs : FS) (i : Nat) (nd : Inode), fs.inodes[i]? = some nd →
+      (one fs e).1.inodes[i]? = some nd ∨ (e.kind = .reg ∧ (one fs e).1.inodes[i]? = some { nd with data := e.data }))
+    (fs : FS) (i : Nat) (nd : Inode) (hi : fs.inodes[i]? = some nd) :
+    (extractWith one fs es).1.inodes[i]? = some nd ∨
+    ∃ e ∈ es, e.kind = .reg ∧ (extractWith one fs es).1.inodes[i]? = some { nd with data := e.data } := by
+  induction es generalizing fs nd with
+  | nil => exact Or.inl hi
+  | cons x xs ih =>
+    have ih' := fun fs nd h => ih (fun e he => hstep e (by simp [he])) fs nd h
+    rw [extractWith_cons]
+    rcases hstep x (by simp) fs i nd hi with h1 | ⟨hk, h1⟩
+    · split
+      · rcases ih' _ nd h1 with h2 | ⟨e, he, hk, h2⟩
+        · exact Or.inl h2
+        · exact Or.inr ⟨e, by simp [he], hk, h2⟩
+      · exact Or.inl h1
+    · split
+      · rcases ih' _ _ h1 with h2 | ⟨e, he, hk', h2⟩
+        · exact Or.inr ⟨x, by simp, hk, h2⟩
+        · exact Or.inr ⟨e, by simp [he], hk', h2⟩
+      · exact Or.inr ⟨x, by simp, hk, h1⟩
+
+theorem tarExtract_inode_history (root : P) (hr : GoodPath root) (hroot : root ≠ []) (mask : Nat) (es : List Entry)
+    (fs : FS) (i : Nat) (nd : Inode) (hi : fs.inodes[i]? = some nd) :
+    (tarExtract fs root mask es).1.inodes[i]? = some nd ∨
+    ∃ e ∈ es, e.kind = .reg ∧ (tarExtract fs root mask es).1.inodes[i]? = some { nd with data := e.data } := by
+  apply extractWith_inode_history _ es _ fs i nd hi
+  intro e _ fs i nd hi
+  rcases tarOne_inode_step fs root hr hroot mask e i nd hi with h | ⟨hk, _, h⟩
+  · exact Or.inl h
+  · exact Or.inr ⟨hk, h⟩
+
+theorem zipOne_symlink_short_tree (fs : FS) (root : P) (mask : Nat) (e : Entry) (hk : e.kind = .symlink)
+    (hs : e.short = true) : (zipOne fs root mask e).1 = fs := by
+  unfold zipOne
+  simp only [hk, hs]
+  split
+  · rfl
+  split
+  · rfl
+  · rfl
+
+theorem zipExtract_inode_history (root : P) (hr : GoodPath root) (hroot : root ≠ []) (mask : Nat) (es : List Entry)
+    (hk : ∀ e ∈ es, e.kind = .reg ∨ e.kind = .dir ∨ e.kind = .symlink)
+    (fs : FS) (i : Nat) (nd : Inode) (hi : fs.inodes[i]? = some nd) :
+    (zipExtract fs root mask es).1.inodes[i]? = some nd ∨
+    ∃ e ∈ es, e.kind = .reg ∧ (zipExtract fs root mask es).1.inodes[i]? = some { nd with data := e.data } := by
+  apply extractWith_inode_history _ es _ fs i nd hi
+  intro e he fs i nd hi
+  show (zipOne fs root mask e).1.inodes[i]? = some nd ∨ _
+  by_cases hsh : e.kind = .symlink ∧ e.short = true
+  · rw [zipOne_symlink_short_tree fs root mask e hsh.1 hsh.2]; exact Or.inl hi
+  · have hx : e.kind = .reg ∨ e.kind = .dir ∨ (e.kind = .symlink ∧ e.short = false) := by
+      rcases hk e he with h | h | h
+      · exact Or.inl h
+      · exact Or.inr (Or.inl h)
+      · refine Or.inr (Or.inr ⟨h, ?_⟩)
+        cases hs : e.short with
+        | false => rfl
+        | true => exact absurd ⟨h, hs⟩ hsh
+    show (zipOne fs root mask e).1.inodes[i]? = some nd ∨
+      (e.kind = .reg ∧ (zipOne fs root mask e).1.inodes[i]? = some { nd with data := e.data })
+    rw [zipOne_eq_tarOne fs root mask e hx]
+    rcases tarOne_inode_step fs root hr hroot mask e i nd hi with h | ⟨hk', _, h⟩
+    · exact Or.inl h
+    · exact Or.inr ⟨hk', h⟩
+
 end Ex
